@@ -1,1 +1,24 @@
-#[allow(unused_imports)] use super::*;
+#[allow(unused_imports)]
+use super::*;
+
+pub struct InitView {
+    pub stage: u8,
+    pub hash: SaltedNodeIdHash,
+    pub failed_retries: usize,
+    pub close_time: usize,
+    pub has_ecdh: bool,
+    pub has_last: bool,
+    pub has_crypto: bool,
+}
+
+pub fn view<P: Payload>(s: &InitState<P>) -> InitView {
+    InitView {
+        stage: s.next_stage,
+        hash: s.salted_node_id_hash,
+        failed_retries: s.failed_retries,
+        close_time: s.close_time,
+        has_ecdh: s.ecdh_private_key.is_some(),
+        has_last: s.last_message.is_some(),
+        has_crypto: s.crypto.is_some(),
+    }
+}
